@@ -642,6 +642,11 @@ example : Codec.decIsKey ⟨false, (2 ^ 52 + 4877398396442247168 % 2 ^ 52) * 2 ^
 example : (2 ^ 52 + 4877398396442247168 % 2 ^ 52) * 2 ^ 8 = 1152921504606846976 := by decide
 example : Codec.digitsVal ("1152921504606846976".toList) = some 1152921504606846976 := by decide
 example : Codec.digitsVal ("12a".toList) = none := by decide
+-- 0.5 = 0x3FE0000000000000 (key 1022·2^52): e = 1022, k = 53, text 2^52·5^53 e-53
+example : Codec.decIsKey ⟨false, (if 4602678819172646912 / 2 ^ 52 = 0 then 4602678819172646912 % 2 ^ 52
+    else 2 ^ 52 + 4602678819172646912 % 2 ^ 52) * 5 ^ 53, -((53 : Nat) : Int)⟩ ((4602678819172646912 : Nat) : Int) = true :=
+  C04_decimal_exact_frac_accepted 4602678819172646912 53 (by decide) (by decide) (by decide)
+example : Codec.decIsKey ⟨false, 5, -1⟩ 4602678819172646912 = true := by decide
 -- -0.1
 example : Codec.decIsKey ⟨true, 1, -1⟩ (-4591870180066957722) = true := by decide
 
